@@ -42,6 +42,8 @@ func newSingleFoodReporter returns (r)
 // single-food register (`reg --single-food REGEX`): one row "DATE<tab>NAME<tab>QUANTITY" per entry of the day whose
 // name matches the pattern, nothing for the others; a pattern that does not compile is an error, not an empty
 // report. Whether a row is printed depends on that entry alone (C12: days and entries are independent).
+fun SFCount(P string, el seq[shared.Element], k int) int := if k <= 0 then 0 else SFCount(P, el, k-1) + (if ReMatch(P, el[k-1].Name) then 1 else 0)
+
 func (*singleFoodReporter).Process returns (err)
   props C17 C08 C12 C07
   requires @args r != nil && ln != nil && r.output != nil
@@ -55,6 +57,7 @@ func (*singleFoodReporter).Process returns (err)
   ensures @none-match [C12 C07] err == nil && (forall j int :: {ln.Elements[j]} 0 <= j && j < NE ==> !ReMatch(P, ln.Elements[j].Name)) ==> prLen == B
   ensures @all-match [C12 C07] err == nil && (forall j int :: {ln.Elements[j]} 0 <= j && j < NE ==> ReMatch(P, ln.Elements[j].Name)) ==> prLen == B + NE
   ensures @at-most-one-row-per-entry [C12 C07] B <= prLen && prLen <= B + NE
+  ensures @one-row-per-matching-entry [C12 C07] err == nil ==> prLen == B + SFCount(P, elems(ln.Elements), NE)
   ensures @layout [C12] forall k int :: {prFmt[k]} B <= k && k < prLen ==> prFmt[k] == "%s\t%s\t%0.2f\n"
   loop 1 {
     invariant @sink r == old(r) && ln == old(ln) && r.output == old(r.output) && BufStep(r.output)
@@ -62,8 +65,11 @@ func (*singleFoodReporter).Process returns (err)
     invariant @none (forall j int :: {ln.Elements[j]} 0 <= j && j < #i ==> !ReMatch(P, ln.Elements[j].Name)) ==> prLen == B
     invariant @all (forall j int :: {ln.Elements[j]} 0 <= j && j < #i ==> ReMatch(P, ln.Elements[j].Name)) ==> prLen == B + #i
     invariant @count B <= prLen && prLen <= B + #i
+    invariant @matching prLen == B + SFCount(P, elems(ln.Elements), #i)
     invariant @layout forall k int :: {prFmt[k]} B <= k && k < prLen ==> prFmt[k] == "%s\t%s\t%0.2f\n"
   }
+  ghost at entry { unfold SFCount(P, elems(ln.Elements), 0) }
+  ghost before call 1 MatchString { unfold SFCount(P, elems(ln.Elements), #i + 1) }
 
 func (*singleFoodReporter).Flush returns (err)
   props C17 C08
